@@ -180,7 +180,7 @@ package gogen
 //@ loop 0 invariant 0 <= i
 
 //@ func (*CodeBuilder).startFuncBody
-//@ prop C16 C09
+//@ prop C16 C09 C10
 //@ requires fn != nil && fn.Func != nil && old != nil && addr(old.codeBlockCtx) != addr(p.current.codeBlockCtx) && old != addr(p.current)
 //@ requires imp(src != nil, len(src) >= 1 && src[0] != nil)
 //@ requires typeis(fn.Type(), *types.Signature) && fn.Type().(*types.Signature).Params() != nil && fn.Type().(*types.Signature).Results() != nil
@@ -1077,7 +1077,7 @@ package gogen
 //@ requires CmpBasicDomain(varg, targ) || CmpSameUnderlying(varg, targ)
 //@ assigns varg.Val, varg.Type, targ.Val, targ.Type
 //@ ensures imp(old(CmpBasicDomain(varg, targ)), result == old(GoComparableBasic(varg.Type.(*types.Basic).Kind(), targ.Type.(*types.Basic).Kind(), varg, targ)))
-//@ ensures imp(old(CmpSameUnderlying(varg, targ)) && (typeis(old(varg.Type).Underlying(), *types.Pointer) || typeis(old(varg.Type).Underlying(), *types.Chan) || typeis(old(varg.Type).Underlying(), *types.Interface) || typeis(old(varg.Type).Underlying(), *types.Basic)), result)
+//@ ensures imp(old(CmpSameUnderlying(varg, targ)) && (typeis(old(varg.Type).Underlying(), *types.Pointer) || typeis(old(varg.Type).Underlying(), *types.Chan) || (typeis(old(varg.Type).Underlying(), *types.Interface) && !typeis(types.Unalias(old(varg.Type)), *types.TypeParam)) || typeis(old(varg.Type).Underlying(), *types.Basic)), result)
 //@ ensures imp(old(CmpSameUnderlying(varg, targ)) && (typeis(old(varg.Type).Underlying(), *types.Slice) || typeis(old(varg.Type).Underlying(), *types.Map) || typeis(old(varg.Type).Underlying(), *types.Signature)), !result)
 
 
